@@ -52,6 +52,7 @@ class FaultTableMonitor(Monitor):
         self.waiting: dict = {}
         self.callbacks = 0
         self.last_cb: dict = {}
+        self.eof_ack_due = None
         c = w.cfg
         # the timer interval behind each limit condition of each handler (ms)
         self.interval = {
@@ -122,6 +123,11 @@ class FaultTableMonitor(Monitor):
                 continue
             if kind == "ignore":
                 self.ignored.add((key, cond))
+                # "the transaction then continues (ignore)": an ignored fault declared while an EOF (No Error) PDU is being
+                # handled in acknowledged mode does not stop that EOF from being acknowledged
+                if rec.hk == "dst" and rec.inb_kind == "EOF" and rec.inb_info[1] == 0 and c.mode == ACK and rec.exc is None \
+                        and rec.pre.step in ("RECEIVING_FILE_DATA", "WAITING_FOR_METADATA"):
+                    self.eof_ack_due = [cond, 0]
                 # "invoked once": a limit fault is declared by a timer expiry; with the ignore handler the transaction
                 # continues, so the next declaration needs a further expiry, i.e. a full timer interval
                 iv = self.interval.get((key, cond))
@@ -158,6 +164,15 @@ class FaultTableMonitor(Monitor):
         for cond, n in seen.items():
             if n > 1:
                 w.violate("C14.callback_once", f"{rec.ent}.{rec.hk} cond={cond} n={n} step={rec.pre.step} in={rec.inb_kind}", "")
+        if self.eof_ack_due is not None and key == ("b", "dst"):
+            if any(e.kind == "ACK" for e in rec.emitted) or rec.post.state == "IDLE" or any(f[0] != "ignore" for f in rec.faults):
+                self.eof_ack_due = None
+            else:
+                self.eof_ack_due[1] += 1
+                if self.eof_ack_due[1] >= 4:
+                    w.violate("C14.ignore_but_stalled", f"b.dst cond={self.eof_ack_due[0]} ignored while handling the EOF PDU, no ACK (EOF) since "
+                              f"(step {rec.post.step})", "4 receiver calls later")
+                    self.eof_ack_due = None
         if rec.faults and rec.exc is not None and not (
             w.fs_fault is not None and rec.exc.cls in ("FileNotFoundError", "PermissionError")
         ):
